@@ -231,6 +231,9 @@ pub fn replay(input: &str, output: &str) -> i32 {
                     r.ctx = Minimal::default();
                 }
             }
+            "same" => {
+                r.same(v["a"].as_str().unwrap(), v["b"].as_str().unwrap(), "shared-mapping");
+            }
             "word" => {
                 let wv = v["valid"].as_bool().unwrap();
                 let wtext = v["w"].as_str().unwrap();
